@@ -580,3 +580,80 @@ _instances_before_predict = instances
 
 def instances(tier):       # noqa: F811
     return _instances_before_predict(tier) + [predict_bounded_instance()]
+
+
+# ============================================================================= P5: fit_predict on degenerate data
+def fit_predict_degenerate_bounded_instance(pinned=False):
+    """fit_predict / fit + predict of every mixture trainer on degenerate observations (all-zero bins, zero frames, duplicated or
+    collinear frames, fewer frames than channels, extreme magnitudes): a call either raises an exception or returns an array of
+    the documented shape with finite values in [0, 1] that sum to one over the classes -- never NaN."""
+    from pb_bss.distribution import (CACGMMTrainer, CWMMTrainer, CBMMTrainer, GMMTrainer, VMFMMTrainer, GCACGMMTrainer, VMFCACGMMTrainer)
+
+    def make(B):
+        if pinned:        # the input of the known finding, evaluated on every run
+            return {'model': B.choose('model', ['cacgmm']), 'data': B.choose('data', ['zero-bin']), 'K': B.choose('K', [2]), 'it': B.choose('it', [1]),
+                    'wca': B.choose('wca', [(-1,)]), 'norm': B.choose('norm', [False]), 'seed': B.choose('seed', [0]), 'd': B.given('d', np.zeros(1))}
+        return {'model': B.choose('model', ['cacgmm', 'cwmm', 'gmm', 'vmfmm', 'gcacgmm', 'vmfcacgmm', 'cacgmm', 'cbmm']),
+                'data': B.choose('data', ['generic', 'zero-bin', 'zero-frames', 'duplicated', 'collinear', 'few-frames', 'tiny', 'huge']),
+                'K': B.choose('K', [1, 2, 3]), 'it': B.choose('it', [1, 2, 4]), 'wca': B.choose('wca', [(-1,), (-3,), (-3, -1)]),
+                'norm': B.choose('norm', ['eigenvalue', 'trace', False]), 'seed': B.choose('seed', list(range(3000))), 'd': B.given('d', np.zeros(1))}
+
+    def call(inp):
+        rng = np.random.RandomState(inp['seed'])
+        model, data, K, it = inp['model'], inp['data'], inp['K'], inp['it']
+        F, D = 2, 3
+        N = 2 if data == 'few-frames' else 10
+        cplx = model not in ('gmm', 'vmfmm')
+        y = rng.normal(size=(F, N, D)) + (1j * rng.normal(size=(F, N, D)) if cplx else 0)
+        if data == 'zero-bin':
+            y[0] = 0
+        elif data == 'zero-frames':
+            y[:, ::3] = 0
+        elif data == 'duplicated':
+            y[:, 1:] = y[:, :1]
+        elif data == 'collinear':
+            y = y[:, :1] * rng.normal(size=(F, N, 1))
+        elif data == 'tiny':
+            y = y * 1e-150
+        elif data == 'huge':
+            y = y * 1e150
+        emb = rng.normal(size=(F, N, 3))
+        init = rng.dirichlet(np.ones(K), size=(F, N)).transpose(0, 2, 1).copy()
+        if model == 'cbmm':
+            F1 = slice(0, 1)
+            y, init, it = y[F1], init[F1], 1
+        try:
+            with np.errstate(all='ignore'):
+                if model in ('gcacgmm', 'vmfcacgmm'):
+                    cls = GCACGMMTrainer if model == 'gcacgmm' else VMFCACGMMTrainer
+                    m = cls().fit(y, emb[:y.shape[0]], initialization=init, iterations=it, weight_constant_axis=inp['wca'], covariance_norm=inp['norm'])
+                    post = m.predict(y, emb[:y.shape[0]])
+                elif model == 'cacgmm':
+                    post = CACGMMTrainer().fit_predict(y, initialization=init, iterations=it, weight_constant_axis=inp['wca'], covariance_norm=inp['norm'])
+                else:
+                    cls = {'cwmm': CWMMTrainer, 'cbmm': CBMMTrainer, 'gmm': GMMTrainer, 'vmfmm': VMFMMTrainer}[model]
+                    post = cls().fit_predict(y, initialization=init, iterations=it, weight_constant_axis=inp['wca'])
+        except Exception as e:      # noqa  an explicit exception is an admissible outcome
+            return {'raised': type(e).__name__, 'post': None, 'shape': (y.shape[0], K, N), 'model': model}
+        tag = '%s,%s,norm=%s' % (model, data, inp['norm'] if model in ('cacgmm', 'gcacgmm', 'vmfcacgmm') else '-')
+        return {'raised': None, 'post': np.asarray(post), 'shape': (y.shape[0], K, N), 'model': tag}
+
+    def ensures(sp, inp, out):
+        if out['raised'] is not None:
+            yield 'explicit-exception[%s]' % out['raised'], True
+            return
+        p = out['post']
+        yield 'documented-shape[%s]' % out['model'], bool(p.shape == out['shape'])
+        yield 'finite-in-[0,1][%s]' % out['model'], bool(np.all(np.isfinite(p)) and np.all(p >= 0) and np.all(p <= 1 + 1e-12))
+        if p.shape == out['shape'] and np.all(np.isfinite(p)):
+            yield 'sums-to-one[%s]' % out['model'], bool(np.allclose(p.sum(-2), 1.0, rtol=0, atol=1e-8))
+
+    return Instance('C01', 'pb_bss.distribution.*Trainer.fit_predict', 'bounded-fit_predict-on-degenerate-data' + ('-pinned-known-finding' if pinned else ''),
+                    make, call, ensures, mode='bounded', bounded_n=1 if pinned else 100, frame=False, fixed_seed=bool(pinned))
+
+
+_instances_before_degenerate = instances
+
+
+def instances(tier):       # noqa: F811
+    return _instances_before_degenerate(tier) + [fit_predict_degenerate_bounded_instance(), fit_predict_degenerate_bounded_instance(pinned=True)]
